@@ -263,6 +263,73 @@ Example order_hypotheses_satisfiable :
 Proof. repeat split; try reflexivity; [apply perm_swap | repeat constructor; simpl; intuition discriminate]. Qed.
 
 (* ======================================================================== *)
+(* the registry is a table: the ORDER in which services were registered        *)
+(* (the order of onet.ServiceFactory's list) does not show in any result       *)
+
+Lemma reg_suite_perm r r' : Permutation r r' -> NoDup (map fst r) ->
+  forall n, reg_suite r n = reg_suite r' n.
+Proof.
+  intros P. induction P as [|x l l' P IH|x y l|l l' l'' P1 IH1 P2 IH2]; intros ND n.
+  - reflexivity.
+  - destruct x as [xn xs]. simpl in *. inversion ND; subst.
+    destruct (bytes_eqb xn n); [reflexivity | apply IH; assumption].
+  - destruct x as [xn xs], y as [yn ys]. simpl in *.
+    destruct (bytes_eqb yn n) eqn:Ey, (bytes_eqb xn n) eqn:Ex; try reflexivity.
+    apply bytes_eqb_eq in Ey, Ex. subst. inversion ND as [|? ? Hn _]; subst.
+    exfalso. apply Hn. left. reflexivity.
+  - rewrite IH1 by exact ND. apply IH2.
+    apply (Permutation_NoDup (l := map fst l)); [apply Permutation_map; exact P1 | exact ND].
+Qed.
+
+Section RegExt.
+  Variables r r' : registry.
+  Hypothesis E : forall n, reg_suite r n = reg_suite r' n.
+
+  Lemma parse_identity_reg_ext c : parse_service_identity r c = parse_service_identity r' c.
+  Proof. unfold parse_service_identity. rewrite E. reflexivity. Qed.
+
+  Lemma collect_reg_ext o : collect_services r o = collect_services r' o.
+  Proof.
+    induction o as [|c rest IH]; [reflexivity|]. simpl. rewrite parse_identity_reg_ext, IH. reflexivity.
+  Qed.
+
+  Lemma parse_services_reg_ext f o : parse_services f r o = parse_services f r' o.
+  Proof. unfold parse_services. rewrite collect_reg_ext. reflexivity. Qed.
+
+  Lemma to_server_identity_reg_ext f s : to_server_identity f r s = to_server_identity f r' s.
+  Proof. unfold to_server_identity. rewrite parse_services_reg_ext. reflexivity. Qed.
+
+  Lemma read_servers_reg_ext f l : read_servers f r l = read_servers f r' l.
+  Proof.
+    induction l as [|s rest IH]; [reflexivity|]. simpl. rewrite to_server_identity_reg_ext, IH. reflexivity.
+  Qed.
+
+  Lemma read_group_reg_ext f (H256 U5 : bytes -> bytes) l : read_group f H256 U5 r l = read_group f H256 U5 r' l.
+  Proof. unfold read_group. rewrite read_servers_reg_ext. reflexivity. Qed.
+
+  Lemma get_server_identity_reg_ext f c : get_server_identity f r c = get_server_identity f r' c.
+  Proof. unfold get_server_identity. rewrite parse_services_reg_ext. reflexivity. Qed.
+End RegExt.
+
+(* two processes that registered the same services in another order read every group
+   file and every private configuration to the same identities and roster id *)
+Theorem registry_order_independent f (H256 U5 : bytes -> bytes) r r' :
+  Permutation r r' -> NoDup (map fst r) ->
+  (forall l, read_group f H256 U5 r l = read_group f H256 U5 r' l) /\
+  (forall c, get_server_identity f r c = get_server_identity f r' c).
+Proof.
+  intros P ND. pose proof (reg_suite_perm r r' P ND) as E. split.
+  - intros l. apply read_group_reg_ext. exact E.
+  - intros c. apply get_server_identity_reg_ext. exact E.
+Qed.
+
+Example registry_order_example :
+  Permutation f20_reg (rev f20_reg) /\ NoDup (map fst f20_reg) /\ f20_reg <> rev f20_reg.
+Proof.
+  split; [apply Permutation_rev|]. split; [repeat constructor; simpl; intuition discriminate | discriminate].
+Qed.
+
+(* ======================================================================== *)
 (* write, then read                                                           *)
 
 Definition svc_of_sid (s : sid) : svc_conf :=
